@@ -295,6 +295,27 @@ func (c *cacheRunner) exec(st cacheStep) string {
 		}
 		return cacheEncode(st.Fmt, c.msgs[st.Msg], e)
 	case "abort":
+		if st.Slot < 0 {
+			// the package-level Marshal* function of the format on a value that cannot be encoded (the panic
+			// is raised two structures deep, after output has been produced)
+			bad := ttlv.Value{Tag: 0x540000, Value: ttlv.Struct{{Tag: 0x540003, Value: ttlv.Struct{{Tag: 0x540001, Value: int32(1)}, {Tag: 0x540002, Value: -time.Second}}}}}
+			if _, p := guard("abort", func() int {
+				switch st.Fmt {
+				case "xml":
+					ttlv.MarshalXML(bad)
+				case "json":
+					ttlv.MarshalJSON(bad)
+				case "text":
+					ttlv.MarshalText(bad)
+				default:
+					ttlv.MarshalTTLV(bad)
+				}
+				return 0
+			}); p != "" {
+				return "panic"
+			}
+			return "ok"
+		}
 		e := c.encoder(st.Fmt, st.Slot)
 		if _, p := guard("abort", func() int { e.TagAny(0x540000, cacheBad{1, -time.Second}); return 0 }); p != "" {
 			return "panic"
@@ -1004,6 +1025,35 @@ func (e *cacheEngine) reuseScenarios() {
 		w1, w0 := e.ref[cacheRefKey{"enc", f, 1, 0}], e.ref[cacheRefKey{"enc", f, 0, 0}]
 		if res.out[2] != w1 || res.out[3] != w0 {
 			e.violate("reuse", "cache:reuse-after-panic:"+f, fmt.Sprintf("after a recovered panic inside a structure, Clear()+encode on the %s encoder gives %s / %s instead of the fresh results", f, truncate(res.out[2], 40), truncate(res.out[3], 40)), line)
+		}
+	}
+	// the package-level Marshal* functions after calls of the same function that panicked (recovered): a pooled
+	// or package-level encoder that an aborted call leaves dirty shows only in such a sequence
+	specs, whats = nil, nil
+	for _, f := range cacheFormats {
+		specs = append(specs, cacheSpec{Msgs: e.specs, Steps: []cacheStep{
+			{Op: "enc", Fmt: f, Msg: 0, Slot: -1},
+			{Op: "abort", Fmt: f, Slot: -1}, {Op: "abort", Fmt: f, Slot: -1}, {Op: "abort", Fmt: f, Slot: -1},
+			{Op: "enc", Fmt: f, Msg: 1, Slot: -1},
+			{Op: "enc", Fmt: f, Msg: 0, Slot: -1},
+		}})
+		whats = append(whats, "marshal-after-panic "+f)
+	}
+	for i, res := range cacheParallel(e.bin, specs, 4) {
+		if e.childFailed(res, whats[i]) {
+			continue
+		}
+		f := cacheFormats[i]
+		line := "# cache.marshal-after-panic " + f + " [Marshal m0; 3 x Marshal <negative interval two structures deep> (panics, recovered); Marshal m1; Marshal m0]"
+		ctx.Add(line, strings.Join([]string{res.out[1], truncate(res.out[4], 12), truncate(res.out[5], 12)}, " | "), true, "C20")
+		ctx.Res.Count("cache.marshal-after-panic." + f)
+		if res.out[1] != "panic" {
+			ctx.Res.Fail("cache: the aborting value did not panic in Marshal on " + f)
+			continue
+		}
+		w1, w0 := e.ref[cacheRefKey{"enc", f, 1, 0}], e.ref[cacheRefKey{"enc", f, 0, 0}]
+		if res.out[0] != w0 || res.out[4] != w1 || res.out[5] != w0 {
+			e.violate("reuse", "cache:marshal-after-panic:"+f, fmt.Sprintf("after recovered panics of the package-level Marshal function of %s, the same function gives %s / %s instead of the fresh results", f, truncate(res.out[4], 40), truncate(res.out[5], 40)), line)
 		}
 	}
 }
